@@ -29,8 +29,12 @@ def run(tier):
     rep = Report("C18", tier, "translation_validation")
     crate_dir = os.path.join(WIT, "pos")
     configs = [("plain", (), ())] if tier == "quick" else [("plain", (), ()), ("unimock_test", ("unimock",), ("test",))]
-    for cfgname, feats, cfgs in configs:
-        R, T, attrs = load_pair(rep, crate_dir, "wit_pos", feats, cfgs)
+    from ..traitgen import generate as traitseq_generate
+    crates = [(crate_dir, "wit_pos", cfgname, feats, cfgs) for cfgname, feats, cfgs in configs]
+    # script-enumerated traits (vlib/traitgen.py): header shapes x selectors x method shapes
+    crates.append((traitseq_generate(tier)[0], "wit_traitseq", "plain", (), ()))
+    for cdir, cname, cfgname, feats, cfgs in crates:
+        R, T, attrs = load_pair(rep, cdir, cname, feats, cfgs)
         rmods = {it.kind_and_name()[1]: it for it in R if it.kind_and_name()[0] == "mod"}
         silent = Report("C18", tier, "other")
         for t in T:
@@ -80,6 +84,18 @@ def run(tier):
                                         % (name, gk[0], gk[1], text_of([grp])[:120]))
                 elif p.kind == "trait":
                     rep.count("entraited_traits")
+                    # (3a) the TRAIT's own attributes (docs, lints, deprecation, foreign macros) stay on the trait: none of
+                    #      the generated items (delegation-target trait, selector trait, impls) carries a copy
+                    trait_attrs = set(a for a in p.t.attr_texts() if not any(o in a for o in OWNED))
+                    for g in generated:
+                        gk = g.kind_and_name()
+                        if gk[0] not in ("trait", "impl"):
+                            continue
+                        rep.count("generated_items_checked")
+                        for a in g.attr_texts():
+                            if a in trait_attrs:
+                                rep.add("W-ATTR", key + " trait-attr copied", "attribute `%s` of the entraited trait was copied onto the generated %s `%s`"
+                                        % (a[:80], gk[0], gk[1] or text_of(g.header())[:40]))
                     # (3) trait-method attributes are mirrored onto the delegating methods
                     timpl = [g for g in generated if g.kind_and_name()[0] == "impl" and " for " in (" " + " ".join(g.words()) + " ") and "Impl" in g.words()]
                     tmethods = {}
@@ -103,6 +119,8 @@ def run(tier):
                                 rep.add("W-ATTR", key + " :: %s mirror" % kn[1], "attributes of trait method `%s` are not mirrored onto the delegating method: %s"
                                         % (kn[1], missing))
         # (4) markers: every marker string of the witness source occurs exactly as often in the expansion as the rule says
+        if cname != "wit_pos":
+            continue
         mod = rmods.get("c18_attrs")
         rep.require(mod is not None, "witness module c18_attrs missing from the expansion")
         text = " ".join(flat(mod.tts))
